@@ -17,7 +17,8 @@
  3. code -> spec: long seeded random runs (hundreds of Messages, random segmentation, 0-byte and 1-byte results, one byte at a time),
     GwAbs monitor on all of them; the event logs of some are validated by TLC against GwAbs (GwAbsTrace, every gateway type) and, call by
     call with the real constants, against GwBinaryImpl (GwBinaryTrace).
- 4. directed case of the open known finding F12.
+ 4. directed cases of the open known findings F12 (empty chunk hides the rest) and F41 (templating receiver keeps its old inflater when the
+    sender's zlib level changes; found by this check).
 """
 import concurrent.futures as cf, copy, json, os, re, threading, time
 import vlib, pathcover
@@ -30,7 +31,6 @@ GW_GROUPS = [["bin0", "bin1", "bin2", "bin3", "bin4", "bin5"], ["bin6", "bin7", 
              ["tpl_s", "tpl_m", "tpl_l", "tpl_sel", "txt_crlf", "txt_lf", "txt_cr"], ["raw", "raw_min", "raw_max", "slip"],
              ["ws_c2s", "ws_c2s_hs", "ws_s2c", "ws_raw", "ws_raw_s2c"]]
 C_GROUPS = [("gwmini", ["mini_tx", "mini_rx"]), ("gwmicro", ["micro_tx", "micro_rx"])]
-EXACT = set(["bin%d" % i for i in range(10)] + ["bin6i", "tpl_s", "tpl_m", "tpl_l", "tpl_sel"])
 
 BIN_INVS = ["TypeOK", "Prefix", "NoError", "Conservation", "BufIsFramePrefix", "ScratchCase", "AcctOK", "QuietEqual"]
 BIN_REACH = [("send_skip", "Conservation"), ("ret_before_short", "AcctOK"), ("offset_assign", "BufIsFramePrefix"), ("scratch_lt", "ScratchCase"),
@@ -85,6 +85,11 @@ def tc_cfg(name, shapes=(11, 22, 33, 42), budget=4, msgs=6, inflight=3, bug="non
         sset(shapes), budget, msgs, inflight, bug, "TRUE" if record else "FALSE", " ".join(invs)))
 
 
+def codec_cfg(name, levels=(6, 9), msgs=5, indep=False, receiver="by_level", bug="none", invs=("HistoryInSync", "EqualWhenIdle")):
+    return write_cfg(name, "SPECIFICATION Spec\nCONSTANTS\n  Levels = %s\n  MaxMsgs = %d\n  Indep = %s\n  Receiver = \"%s\"\n  Bug = \"%s\"\nINVARIANTS %s\n" % (
+        sset(levels), msgs, "TRUE" if indep else "FALSE", receiver, bug, " ".join(invs)))
+
+
 def run(v, tier, seed):
     try:
         return _run(v, tier, seed)
@@ -93,6 +98,13 @@ def run(v, tier, seed):
             try: os.remove(os.path.join(vlib.SPEC, FAM, n))
             except OSError: pass
         del _cfgs[:]
+        # work files (behaviours, reports, logs) are kept only when something in them is referred to by a VIOLATION / DRIFT line
+        if not v.violations and v.drift == 0:
+            d = os.path.dirname(vlib.scratch("C03", "x"))
+            for n in os.listdir(d):
+                if n.startswith("p%d_" % PID):
+                    try: os.remove(os.path.join(d, n))
+                    except OSError: pass
 
 
 def _run(v, tier, seed):
@@ -154,25 +166,35 @@ def _run(v, tier, seed):
     rep = W("directed.ndjson")
     harness("gw", ["directed", rep], "directed")
     s = judge(vlib.read_ndjson(rep), "directed case", "directed")
-    notes["f12_reproduced"] = s.get("f12_reproduced")
+    notes["f12_reproduced"] = s.get("f12_reproduced"); notes["f41_reproduced"] = s.get("f41_reproduced")
+    # sender-side zlib level changes while the connection is up: the plain gateway always, the templating one once F41 is repaired
+    groups = [list(g) for g in GW_GROUPS]
+    groups[1].append("bin_lvl")
+    if not s.get("f41_reproduced"): groups[2].append("tpl_lvl")
     for r in vlib.read_ndjson(rep):
         if not r.get("summary"): samples.append({"kind": "directed case", "case": r.get("case"), "chunks": r.get("chunks"), "bytes_queued": r.get("bytes_queued"), "bytes_handed_over": r.get("bytes_handed_over"), "reproduced": r.get("reproduced")})
 
     with cf.ThreadPoolExecutor(max_workers=14) as ex:
         # -----------------------------------------------------------------------------------------------------------
         # 3. code -> spec: random runs, logs validated by TLC
-        def explore(p, cfgs, tag, runs, msgs, traced, sd):
+        def explore(p, cfgs, tag, runs, msgs, traced, tmsgs, sd):
             rep = W("ex_%s.ndjson" % tag); ab = W("abs_%s.ndjson" % tag); bn = W("bin_%s.ndjson" % tag)
-            harness(p, ["explore", rep, ab, bn, sd, runs, msgs, traced] + cfgs, "explore " + tag)
-            rows = vlib.read_ndjson(rep)
-            ra = tlc("GwAbsTrace", "AbsTrace.cfg", 1, 2400, env={"TRACE": ab}, heap="4g") if os.path.getsize(ab) > 0 else None
-            rb = None
-            if os.path.getsize(bn) > 0: rb = tlc("GwBinaryTrace", "BinTrace.cfg", 1, 2400, env={"TRACE": bn}, heap="6g", keep_out=True)
-            return tag, rows, ra, rb, ab, bn
+            harness(p, ["explore", rep, ab, bn, sd, runs, msgs, traced, tmsgs] + cfgs, "explore " + tag)
+            return tag, vlib.read_ndjson(rep), ab, bn
+        def validate_logs(kind, files, tag):
+            """one TLC run over the concatenation of some logs (every run starts with a Reset line)"""
+            cat = W("%s_all_%s.ndjson" % (kind, tag)); n = 0
+            with open(cat, "w") as out:
+                for f in files:
+                    for line in open(f): out.write(line); n += 1
+            if n == 0: return None, cat, 0
+            if kind == "abs": r = tlc("GwAbsTrace", "AbsTrace.cfg", 1, 2400, env={"TRACE": cat}, heap="4g")
+            else: r = tlc("GwBinaryTrace", "BinTrace.cfg", 1, 2400, env={"TRACE": cat}, heap="6g")
+            return r, cat, n
         E = []
-        runs, msgs, traced = (40, 150, 1) if quick else (int(1500 * scale) + 8, 300, int(24 * scale) + 1)
-        for i, g in enumerate(GW_GROUPS): E.append(ex.submit(explore, "gw", g, "g%d" % i, runs, msgs, traced, seed))
-        for p, g in C_GROUPS: E.append(ex.submit(explore, p, g, p, runs, msgs, traced, seed))
+        runs, msgs, traced, tmsgs = (40, 150, 1, 50) if quick else (int(1500 * scale) + 8, 300, int(10 * scale) + 1, 300)
+        for i, g in enumerate(groups): E.append(ex.submit(explore, "gw", g, "g%d" % i, runs, msgs, traced, tmsgs, seed))
+        for p, g in C_GROUPS: E.append(ex.submit(explore, p, g, p, runs, msgs, traced, tmsgs, seed))
 
         # -----------------------------------------------------------------------------------------------------------
         # 2. spec -> code
@@ -198,10 +220,10 @@ def _run(v, tier, seed):
             beh, st = gen_binary(tag, msgs, args)
             bf = W("beh_%s.ndjson" % tag)
             vlib.write_ndjson(bf, [{"id": i, "steps": s} for i, s in enumerate(beh)])
-            fs = [ex.submit(replay, "gw", g, "%s_g%d" % (tag, i), bf, nvar) for i, g in enumerate(GW_GROUPS)]
+            fs = [ex.submit(replay, "gw", g, "%s_g%d" % (tag, i), bf, nvar) for i, g in enumerate(groups)]
             fs += [ex.submit(replay, p, g, "%s_%s" % (tag, p), bf, nvar) for p, g in C_GROUPS]
             return beh, st, fs, bf
-        G = [ex.submit(gen_and_replay, "m2", 2, (1, 2, 3), 2 if quick else 3)]
+        G = [ex.submit(gen_and_replay, "m2", 2, (1, 2, 3), 1 if quick else 3)]     # quick: each behaviour in one of the three concretisations (by its number), thorough: in all three
         if not quick: G.append(ex.submit(gen_and_replay, "m3", 3, (1, 3), 1))
 
         def simulate(tag, msgs, steps, num):
@@ -215,7 +237,7 @@ def _run(v, tier, seed):
                 if k not in seen: seen.add(k); beh.append(b)
             bf = W("beh_%s.ndjson" % tag)
             vlib.write_ndjson(bf, [{"id": i, "steps": s} for i, s in enumerate(beh)])
-            fs = [ex.submit(replay, "gw", g, "%s_g%d" % (tag, i), bf, 1) for i, g in enumerate(GW_GROUPS)]
+            fs = [ex.submit(replay, "gw", g, "%s_g%d" % (tag, i), bf, 1) for i, g in enumerate(groups)]
             fs += [ex.submit(replay, p, g, "%s_%s" % (tag, p), bf, 1) for p, g in C_GROUPS]
             return beh, {"simulated": len(r.printed), "distinct": len(beh)}, fs, bf
         S = []
@@ -247,7 +269,7 @@ def _run(v, tier, seed):
             out = W("slip.ndjson"); rep = W("sliprep.ndjson")
             harness("gw", ["slip", maxchunk, pairlen, out, rep], "slip")
             r1 = tlc("GwSlipTrace", "SlipTrace.cfg", 1, 1800, env={"TRACE": out}, keep_out=True)
-            r2 = tlc("GwSlipTrace", "SlipTraceAlgo.cfg", 1, 1800, env={"TRACE": out}, keep_out=True)
+            r2 = tlc("GwSlipTrace", "SlipTraceAlgo.cfg", 1, 1800, env={"TRACE": out}, keep_out=True) if not quick else None    # (wire format: algorithm level)
             return vlib.read_ndjson(rep), r1, r2, out
         f_slip = ex.submit(slip_leg, 4 if quick else 5, 1 if quick else 2)
 
@@ -255,46 +277,61 @@ def _run(v, tier, seed):
             rep = W("menu_%s.ndjson" % tag)
             harness(p, ["menu", rep, seed, 0 if quick else 1] + cfgs, "menu " + tag)
             return tag, vlib.read_ndjson(rep)
-        M = [ex.submit(menu, "gw", sum(GW_GROUPS, []), "gw")] + [ex.submit(menu, p, g, p) for p, g in C_GROUPS]
+        M = [ex.submit(menu, "gw", sum(groups, []), "gw")] + [ex.submit(menu, p, g, p) for p, g in C_GROUPS]
 
         # -----------------------------------------------------------------------------------------------------------
         # 1. model checking
         def mc(module, cfg, what, acts, workers=2, timeout=1500, heap="4g"):
-            r = tlc(module, cfg, workers, timeout, coverage=True, heap=heap)
+            r = tlc(module, cfg, workers, timeout, coverage=True, heap=heap, keep_out=True)
             vlib.require_ok(r, what)
-            vlib.require_coverage(r, acts, what)
+            # (vlib's pattern does not match the coverage lines of actions with a state-dependent quantifier: "<Out line .. of module M (177 42 177 113)>: 11:528")
+            cov = {}
+            for m in re.finditer(r"^<(\w+) line [^>]*>: (\d+):(\d+)", r.out, re.M): cov[m.group(1)] = cov.get(m.group(1), 0) + int(m.group(2))
+            missing = [a for a in acts if cov.get(a, 0) == 0]
+            if missing: raise vlib.MachineryError("%s: vacuity guard: actions never taken: %s" % (what, missing))
+            r.out = ""
             return what, r
         def reach(module, cfg, expect, what):
             r = tlc(module, cfg, 1, 600, heap="2g")
-            if r.violated != expect: raise vlib.MachineryError("vacuity guard %s: expected the wrong variant to violate %s, got %s %s" % (what, expect, r.violated, (r.error or "")[:300]))
+            got = r.violated
+            if got is None and r.error and "Action property" in r.error and "is violated" in r.error: got = "AbsSpec"     # a step that is not a step of GwAbs
+            if got != expect: raise vlib.MachineryError("vacuity guard %s: expected the wrong variant to violate %s, got %s %s" % (what, expect, r.violated, (r.error or "")[:300]))
             return what
         J = []; RJ = []
         big = not quick
-        J.append(ex.submit(mc, "GwBinaryImpl", bin_cfg("MC_bin", msgs=3 if big else 2, args=(0, 1, 2, 3, 4, 5, 6, 7) if not big else (0, 1, 2, 3, 5, 7), invs=BIN_INVS, props=["AbsSpec"]),
-                           "GwBinaryImpl HS=2 SCR=5 bodies 2,3,4 (below / at / above the scratch size), %d Messages, every segmentation" % (3 if big else 2), ["Send", "Out", "In"], 4, 2400, "8g"))
-        J.append(ex.submit(mc, "GwBinaryImpl", bin_cfg("MC_bin_hs3", hs=3, scr=6, bodies=(1, 3, 5), msgs=2, args=(0, 1, 2, 4, 8), invs=BIN_INVS, props=["AbsSpec"]),
-                           "GwBinaryImpl HS=3 SCR=6 bodies 1,3,5, 2 Messages", ["Send", "Out", "In"], 2, 1500))
-        J.append(ex.submit(mc, "GwBinaryImpl", bin_cfg("MC_bin_live", spec="FairSpec", msgs=2, args=(1, 3), invs=["Prefix"], props=["Delivers"]),
-                           "GwBinaryImpl liveness (fair transport): everything queued is delivered", ["Send", "Out", "In"], 2, 1500))
+        J.append(ex.submit(mc, "GwBinaryImpl", bin_cfg("MC_bin", msgs=3 if big else 2, args=(0, 1, 2, 3, 6) if not big else (0, 1, 2, 3, 5, 7), invs=BIN_INVS, props=["AbsSpec"]),
+                           "GwBinaryImpl HS=2 SCR=5 bodies 2,3,4 (below / at / above the scratch size), %d Messages, every segmentation" % (3 if big else 2), ["SendB", "Out", "In"], 4, 2400, "8g"))
+        if not quick: J.append(ex.submit(mc, "GwBinaryImpl", bin_cfg("MC_bin_hs3", hs=3, scr=6, bodies=(1, 3, 5), msgs=2, args=(0, 1, 2, 4, 8), invs=BIN_INVS, props=["AbsSpec"]),
+                           "GwBinaryImpl HS=3 SCR=6 bodies 1,3,5, 2 Messages", ["SendB", "Out", "In"], 2, 1500))
+        J.append(ex.submit(mc, "GwBinaryImpl", bin_cfg("MC_bin_live", spec="FairSpec", msgs=2, bodies=(2, 4) if quick else (2, 3, 4), args=(1, 3), invs=["Prefix"], props=["Delivers"]),
+                           "GwBinaryImpl liveness (fair transport): everything queued is delivered", ["SendB", "Out", "In"], 2, 1500))
         J.append(ex.submit(mc, "GwText", text_cfg("MC_text", 7 if quick else 8, invs=["ChunkedIsUnchunked", "NothingLost", "FlagOK"]), "GwText every stream up to length %d, every segmentation" % (7 if quick else 8), ["Feed"], 2, 1500))
         J.append(ex.submit(mc, "GwSlip", slip_cfg("MC_slip1", 4 if quick else 5, 1, invs=["PrefixAlways", "AllAtEnd", "ChunkedIsUnchunked", "RoundTrip"]), "GwSlip every chunk up to length %d, every segmentation" % (4 if quick else 5), ["Feed"], 2, 1500))
         J.append(ex.submit(mc, "GwSlip", slip_cfg("MC_slip2", 2 if quick else 3, 2, invs=["PrefixAlways", "AllAtEnd", "ChunkedIsUnchunked", "RoundTrip"]), "GwSlip every list of 1-2 chunks up to length %d, every segmentation" % (2 if quick else 3), ["Feed"], 2 if quick else 4, 1500))
-        J.append(ex.submit(mc, "GwSlip", slip_cfg("MC_slip_rfc", 2, 2, bug="no_lead_end", invs=["PrefixAlways", "AllAtEnd", "ChunkedIsUnchunked", "RoundTrip"]), "GwSlip, sender without the leading END (plain RFC 1055)", ["Feed"], 1, 900))
+        if not quick: J.append(ex.submit(mc, "GwSlip", slip_cfg("MC_slip_rfc", 2, 2, bug="no_lead_end", invs=["PrefixAlways", "AllAtEnd", "ChunkedIsUnchunked", "RoundTrip"]), "GwSlip, sender without the leading END (plain RFC 1055)", ["Feed"], 1, 900))
         TCI = ["NeverMiss", "CacheInSync", "EqualWhenIdle", "TallyExact", "NoDuplicates", "BudgetRespected"]
         J.append(ex.submit(mc, "GwTemplateCache", tc_cfg("MC_tc4", budget=4, msgs=6 if quick else 7, inflight=3, invs=TCI), "GwTemplateCache sizes 1,2,3,2 budget 4", ["Produce", "Consume"], 2, 1500))
-        J.append(ex.submit(mc, "GwTemplateCache", tc_cfg("MC_tc2", shapes=(11, 21, 32, 53), budget=2, msgs=6, inflight=6, invs=TCI), "GwTemplateCache sizes 1,1,2,3 budget 2 (a template larger than the budget)", ["Produce", "Consume"], 2, 1500))
+        if not quick: J.append(ex.submit(mc, "GwTemplateCache", tc_cfg("MC_tc2", shapes=(11, 21, 32, 53), budget=2, msgs=6, inflight=6, invs=TCI), "GwTemplateCache sizes 1,1,2,3 budget 2 (a template larger than the budget)", ["Produce", "Consume"], 2, 1500))
+        # zlib history dependence: the receiver that looks its codec up by the level of the incoming frame stays in step across level changes and resets
+        J.append(ex.submit(mc, "GwCodecHistory", codec_cfg("MC_codec", levels=(6, 9) if quick else (1, 6, 9), msgs=5), "GwCodecHistory, receiver by level, dependent frames, level changes", ["SetEncoding", "Produce", "Consume"], 1, 900))
+        if not quick:
+            J.append(ex.submit(mc, "GwCodecHistory", codec_cfg("MC_codec_i", levels=(6, 9), msgs=5, indep=True), "GwCodecHistory, receiver by level, independent frames", ["SetEncoding", "Produce", "Consume"], 1, 900))
+            J.append(ex.submit(mc, "GwCodecHistory", codec_cfg("MC_codec_any1", levels=(6,), msgs=6, receiver="any_level"), "GwCodecHistory, receiver GetReceiveCodec() as coded, ONE zlib level (why the fixed-encoding configurations are unaffected by F41)", ["SetEncoding", "Produce", "Consume"], 1, 900))
+            RJ.append(ex.submit(reach, "GwCodecHistory", codec_cfg("Reach_codec_F41", receiver="any_level", invs=["HistoryInSync"]), "HistoryInSync", "GwCodecHistory GetReceiveCodec() as coded with two levels = known finding F41"))
+            RJ.append(ex.submit(reach, "GwCodecHistory", codec_cfg("Reach_codec_nodr", levels=(6,), indep=True, bug="no_deflate_reset", invs=["HistoryInSync"]), "HistoryInSync", "GwCodecHistory no_deflate_reset"))
+            RJ.append(ex.submit(reach, "GwCodecHistory", codec_cfg("Reach_codec_noir", levels=(6,), indep=True, bug="no_inflate_reset", invs=["HistoryInSync"]), "HistoryInSync", "GwCodecHistory no_inflate_reset"))
         # vacuity: every invariant fails on a wrong variant (quick: one or two per specification, thorough: all)
-        sel = (lambda xs: xs[:2]) if quick else (lambda xs: xs)
-        for bug, inv in (BIN_REACH if not quick else [BIN_REACH[i] for i in (2, 5, 6, 7)]):
+        sel = (lambda xs: xs[:1]) if quick else (lambda xs: xs)
+        for bug, inv in (BIN_REACH if not quick else [BIN_REACH[i] for i in (2, 7)]):
             if inv == "Delivers": c = bin_cfg("Reach_%s_%s" % (bug, inv), spec="FairSpec", msgs=2, args=(1, 3), bug=bug, props=["Delivers"]); exp = "temporal"
             elif inv == "AbsSpec": c = bin_cfg("Reach_%s_%s" % (bug, inv), msgs=2, args=(1, 3), bug=bug, props=["AbsSpec"]); exp = "AbsSpec"
             else: c = bin_cfg("Reach_%s_%s" % (bug, inv), msgs=2, args=(0, 1, 2, 3, 7), bug=bug, invs=[inv]); exp = inv
             RJ.append(ex.submit(reach, "GwBinaryImpl", c, exp, "GwBinaryImpl %s / %s" % (bug, inv)))
         for bug, inv in sel(TEXT_REACH): RJ.append(ex.submit(reach, "GwText", text_cfg("Reach_text_%s_%s" % (bug, inv), 5, bug=bug, invs=[inv]), inv, "GwText %s / %s" % (bug, inv)))
-        for bug, inv in sel(SLIP_REACH): RJ.append(ex.submit(reach, "GwSlip", slip_cfg("Reach_slip_%s_%s" % (bug, inv), 2, 2, bug=bug, invs=[inv]), inv, "GwSlip %s / %s" % (bug, inv)))
+        for bug, inv in sel(SLIP_REACH[2:] if quick else SLIP_REACH): RJ.append(ex.submit(reach, "GwSlip", slip_cfg("Reach_slip_%s_%s" % (bug, inv), 2, 2, bug=bug, invs=[inv]), inv, "GwSlip %s / %s" % (bug, inv)))
         for bug, inv in sel(TC_REACH[1:] if quick else TC_REACH): RJ.append(ex.submit(reach, "GwTemplateCache", tc_cfg("Reach_tc_%s_%s" % (bug, inv), bug=bug, invs=[inv]), inv, "GwTemplateCache %s / %s" % (bug, inv)))
         # the eager SENDER is harmless for delivery (TLC: NeverMiss holds, the caches are not in step): the model says what a code change there can and cannot break
-        J.append(ex.submit(mc, "GwTemplateCache", tc_cfg("MC_tc_send_ge", bug="send_ge", msgs=6, invs=["NeverMiss", "TallyExact", "NoDuplicates"]), "GwTemplateCache with a sender that evicts at tally >= budget: NeverMiss still holds", ["Produce", "Consume"], 1, 900))
+        if not quick: J.append(ex.submit(mc, "GwTemplateCache", tc_cfg("MC_tc_send_ge", bug="send_ge", msgs=6, invs=["NeverMiss", "TallyExact", "NoDuplicates"]), "GwTemplateCache with a sender that evicts at tally >= budget: NeverMiss still holds", ["Produce", "Consume"], 1, 900))
 
         # -----------------------------------------------------------------------------------------------------------
         # collect: model checking
@@ -381,7 +418,8 @@ def _run(v, tier, seed):
             with open(out) as fh: return fh.read().split("\n")[int(m.group(1)) - 1]
         if r1.violated == "Delivered": viol("SLIP gateway pair does not hand over exactly the non-empty chunks queued: %s" % slip_line(r1), {"line": slip_line(r1), "log": out}, "slip")
         elif not r1.ok(): raise vlib.MachineryError("GwSlipTrace: %s" % (r1.error or r1.violated))
-        if r2.violated in ("DecoderAgrees", "WireAsCoded"):
+        if r2 is None: pass
+        elif r2.violated in ("DecoderAgrees", "WireAsCoded"):
             v.drift += 1; vlib.log("DRIFT property=C03 SLIP wire format / decoder differs from GwSlip (%s): %s" % (r2.violated, slip_line(r2)))
         elif not r2.ok(): raise vlib.MachineryError("GwSlipTrace: %s" % (r2.error or r2.violated))
         if ss["chunk_lists"] != r1.distinct: raise vlib.MachineryError("GwSlipTrace validated %d lines, the harness wrote %d" % (r1.distinct, ss["chunk_lists"]))
@@ -412,26 +450,37 @@ def _run(v, tier, seed):
         exs = {"runs": 0, "messages": 0, "io_calls": 0, "zero_byte_results": 0, "one_byte_results": 0, "items_delivered": 0, "bytes_moved": 0, "trace_lines": 0, "traced_runs": 0}
         abs_lines = 0; bin_lines = 0; abs_logs = []; bin_logs = []
         for f in E:
-            tag, rows, ra, rb, ab, bn = f.result()
+            tag, rows, ab, bn = f.result()
             s = judge(rows, "random run", "explore")
             for k in exs: exs[k] += s.get(k, 0)
             for c, d in s.get("per_config", {}).items():
                 pc = per_cfg.setdefault(c, {"replays": 0, "followed": 0, "random_runs": 0, "random_messages": 0})
                 pc["random_runs"] += d["runs"]; pc["random_messages"] += d["messages"]
-            if ra is not None:
-                n = sum(1 for _ in open(ab)); abs_lines += n; abs_logs.append(ab)
-                if ra.violated == "NotAccepted": tot["states"] += ra.distinct; tot["transitions"] += ra.generated
-                elif ra.violated in ("Prefix", "QuietEqual"):
-                    viol("the recorded event log of a random run violates %s of GwAbs (log %s)" % (ra.violated, ab), {"log": ab, "invariant": ra.violated, "tlc": ra.out[-1500:]}, "trace")
-                else: raise vlib.MachineryError("GwAbsTrace did not read the log %s to the end: %s" % (ab, ra.violated or ra.error or ra.out[-600:]))
-            if rb is not None:
-                n = sum(1 for _ in open(bn)); bin_lines += n; bin_logs.append(bn)
-                if rb.violated == "NotAccepted": tot["states"] += rb.distinct; tot["transitions"] += rb.generated
-                elif rb.violated or rb.error: raise vlib.MachineryError("GwBinaryTrace on %s: %s" % (bn, rb.violated or rb.error))
+            if os.path.getsize(ab) > 0: abs_logs.append(ab)
+            if os.path.getsize(bn) > 0: bin_logs.append(bn)
+        # quick: one TLC run per kind of log; thorough: one per harness process
+        V = []
+        if not v.violations:
+            if quick: V = [ex.submit(validate_logs, "abs", abs_logs, "q"), ex.submit(validate_logs, "bin", bin_logs, "q")]
+            else: V = [ex.submit(validate_logs, "abs", [f], str(i)) for i, f in enumerate(abs_logs)] + [ex.submit(validate_logs, "bin", [f], str(i)) for i, f in enumerate(bin_logs)]
+        for f in V:
+            r, cat, n = f.result()
+            if r is None: continue
+            accepted = ("accepted" in r.printed)
+            if "abs_all" in cat:
+                abs_lines += n
+                if accepted and r.ok(): tot["states"] += r.distinct; tot["transitions"] += r.generated
+                elif r.violated in ("Prefix", "QuietEqual"):
+                    viol("the recorded event log of a random run violates %s of GwAbs (log %s)" % (r.violated, cat), {"log": cat, "invariant": r.violated, "tlc": r.out[-1500:]}, "trace")
+                else: raise vlib.MachineryError("GwAbsTrace did not read the log %s to the end: %s" % (cat, r.violated or r.error or r.out[-600:]))
+            else:
+                bin_lines += n
+                if r.violated or r.error: raise vlib.MachineryError("GwBinaryTrace on %s: %s" % (cat, r.violated or r.error))
+                if accepted: tot["states"] += r.distinct; tot["transitions"] += r.generated
                 else:
                     # the code did something the algorithm-level model does not allow, while the GwAbs monitor and GwAbsTrace are satisfied: drift
                     v.drift += 1
-                    vlib.log("DRIFT property=C03 a recorded call log is not a behaviour of GwBinaryImpl: first unexplained line about %s of %s in %s" % (_first_unexplained(bn, rb.depth), n, bn))
+                    vlib.log("DRIFT property=C03 a recorded call log is not a behaviour of GwBinaryImpl: first unexplained line about %s of %s in %s" % (_first_unexplained(cat, r.depth), n, cat))
         if exs["zero_byte_results"] == 0 or exs["one_byte_results"] == 0: raise vlib.MachineryError("vacuity guard: random runs without 0-byte / 1-byte results: %s" % exs)
 
         # the trace binding rejects a corrupted log
@@ -445,7 +494,7 @@ def _run(v, tier, seed):
             c1 = copy.deepcopy(seg); c1[di[1]]["i"] += 1                      # another item than the one queued next
             c2 = copy.deepcopy(seg); del c2[di[-1]]                           # the last delivery is missing at quiescence
             c3 = copy.deepcopy(seg); c3.insert(di[0], dict(c3[di[0]]))       # one item twice
-            for name, c, expect in (("c1", c1, "Prefix"), ("c2", c2, "QuietEqual"), ("c3", c3, "Prefix")):
+            for name, c, expect in ((("c1", c1, "Prefix"), ("c2", c2, "QuietEqual")) if quick else (("c1", c1, "Prefix"), ("c2", c2, "QuietEqual"), ("c3", c3, "Prefix"))):
                 f2 = W("abs_selftest_%s.ndjson" % name); vlib.write_ndjson(f2, c)
                 rr = tlc("GwAbsTrace", "AbsTrace.cfg", 1, 600, env={"TRACE": f2}, heap="2g")
                 if rr.violated != expect: raise vlib.MachineryError("self test: a corrupted event log (%s) was not rejected with %s but gave %s" % (name, expect, rr.violated or rr.error))
@@ -456,11 +505,12 @@ def _run(v, tier, seed):
             oi = [i for i, x in enumerate(seg) if x["e"] == "Out" and x["ret"] > 0]; ii = [i for i, x in enumerate(seg) if x["e"] == "In" and x["dl"]]
             c4 = copy.deepcopy(seg); c4[oi[len(oi) // 2]]["ret"] += 1         # DoOutput reports one byte more than it wrote
             c5 = copy.deepcopy(seg); c5[ii[0]]["dl"] = c5[ii[0]]["dl"][:-1]   # a Message handed over one call later than it must be
-            for name, c in (("c4", c4), ("c5", c5)):
+            for name, c in ((("c4", c4),) if quick else (("c4", c4), ("c5", c5))):
                 f2 = W("bin_selftest_%s.ndjson" % name); vlib.write_ndjson(f2, c)
                 rr = tlc("GwBinaryTrace", "BinTrace.cfg", 1, 900, env={"TRACE": f2}, heap="3g")
                 if rr.violated or rr.error: raise vlib.MachineryError("self test: a corrupted call log (%s) gave %s" % (name, rr.violated or rr.error))
-                done += 1                                                      # (no violation, not accepted: rejected)
+                if "accepted" in rr.printed: raise vlib.MachineryError("self test: a corrupted call log (%s) was accepted by GwBinaryTrace" % name)
+                done += 1
             return done
         if abs_logs and bin_logs: f_self.append(ex.submit(selftest_trace))
         tot["selftests"] = sum(f.result() for f in f_self)
@@ -487,12 +537,13 @@ def _run(v, tier, seed):
            "rule": "behaviours = path cover of EVERY transition of the TLC state graph of GwBinaryImpl (HS=2, SCR=5, bodies below / at / above the scratch size, maxBytes 1,2,3,unlimited, every transport budget) "
                    "and of GwTemplateCache; distinct by construction (each adds an uncovered transition; simulated ones de-duplicated by hash); each replayed under every gateway configuration in 1-3 concretisations; "
                    "non-trivial = followed to the end with every item handed over equal to the item queued, everything delivered at quiescence and (MessageIOGateway framing) every call equal to the specification's step",
-           "exhaustive": True, "per_configuration": per_cfg, "model_runs": mc_notes, "generation_instances": gen_notes, "f12_directed_cases_reproduced": notes.get("f12_reproduced"),
+           "exhaustive": True, "per_configuration": per_cfg, "model_runs": mc_notes, "generation_instances": gen_notes, "f12_directed_cases_reproduced": notes.get("f12_reproduced"), "f41_directed_case_reproduced": notes.get("f41_reproduced"),
            "samples": samples[:10]}
     assumptions = ["the transport is a reliable byte stream (no loss, duplication, reordering or corruption of bytes: hostile bytes are property C02, packet transports C12); it may deliver any number of bytes per call, including 0",
                    "byte identity in GwBinaryImpl is the position in the sender's output stream; content-dependent encodings (zlib history, templates) are bound by comparing the flattened bytes of real Messages end to end, "
-                   "with identical repeats and templatable / non-templatable Messages in the menu; the zlib history itself is not modelled (GwCodecHistory of the design was optional)",
+                   "with identical repeats and templatable / non-templatable Messages in the menu; the zlib history dependence is model-checked separately (GwCodecHistory) and bound by the random runs with level changes (bin_lvl) and the directed case of F41, not by generated behaviours",
                    "TLC instances: 2-3 Messages per behaviour in the exhaustive graphs (6 in the simulated ones), header 2-3 units, scratch 5-6 units; the real constants 8 / 2048 are used by GwBinaryTrace on recorded runs and by the concretisation of the behaviours",
+                   "the outgoing encoding of a templating sender stays fixed during a connection while known finding F41 is open (level changes of the plain MessageIOGateway are run)",
                    "raw and SLIP chunks of length 0 are generated only as the LAST chunk of a Message (known finding F12 otherwise); WebSocket without a slave gateway is driven with non-empty chunks only",
                    "granularity as each gateway documents itself: whole Messages (binary, templating, WebSocket with slave, mini / micro), text lines, non-empty chunks (SLIP, WebSocket without slave), the byte stream (raw; with a minimum chunk size up to min-1 bytes stay behind)",
                    "DoOutput / DoInput return values and the exact number of Write() / Read() calls are algorithm-level (DRIFT), not part of the property as stated"]
